@@ -397,6 +397,8 @@ def _init():
 
 
 def run(ctx):
+    from .. import xfeat
+    xfeat.sweep(ctx, "C07")      # cross-feature compositions (pv/xfeat.py)
     progs = E.depth1_programs(include_fxp=True)
     tasks = []
     cfgs = [(3, REC.BN128, False), (2, REC.BN128, True)]
@@ -446,6 +448,9 @@ def run(ctx):
 
 
 def replay(case):
+    if isinstance(case, dict) and case.get("xfeat"):
+        from .. import xfeat
+        return xfeat.replay(case, "C07")
     H.bind(case["p"])
     from . import _e1common as X
     prog = {"expr": X._tuplify(case["prog"]["expr"]), "kinds": list(case["prog"]["kinds"])}
